@@ -2,6 +2,9 @@
 import store_hist as H
 
 ID = "C02"
+# the model numbers fiber identities and rank lists in construction (DFS) order: no post-construction
+# re-assignment of sub-trees in the shared builder (the histories themselves contain such assignments)
+REASSIGN_MODE = False
 THEOREMS = ["C02_init_mirror_any", "C02_init_mirror", "C02_step_mirror", "C02_history_mirror",
             "C02_mirror_meaning", "C02_owners_spec", "C02_model_meets_spec", "C02_rank_mirrors_spec",
             "C02_oracle_meaning", "C02_mirror_observed"]
